@@ -35,6 +35,8 @@ type SpecCtx struct {
 	inOld  bool // inside old(...): parameter names denote their entry values
 	params map[string]bool
 	callee bool // evaluating a callee's contract at a call site
+	// packed struct keys named once per clause evaluation (all definitions of one clause sit at one program point)
+	keyMemo map[string]Term
 }
 
 type ghostInst struct {
@@ -73,6 +75,10 @@ func (c *SpecCtx) EvalBool(x Expr) (t Term, err error) {
 			panic(r)
 		}
 	}()
+	if c.keyMemo == nil {
+		c.keyMemo = map[string]Term{}
+		defer func() { c.keyMemo = nil }()
+	}
 	tv := c.eval(x)
 	return c.asBool(tv), nil
 }
@@ -772,6 +778,16 @@ func lookupFieldAnyPkg(t types.Type, fname string) (types.Object, []int) {
 	return nil, nil
 }
 
+// keyValue: a struct-typed map key that the evaluator holds as a pointer to its instance is loaded.
+func (c *SpecCtx) keyValue(tv TV, kt types.Type) Value {
+	if _, isStruct := kt.Underlying().(*types.Struct); isStruct {
+		if p, ok := tv.T.Underlying().(*types.Pointer); ok && types.Identical(p.Elem(), kt) {
+			return c.structValue(tv).V
+		}
+	}
+	return tv.V
+}
+
 // derefIfInst: values of nested struct type are kept as pointers to their instance.
 func (c *SpecCtx) structValue(x TV) TV {
 	if p, ok := x.T.Underlying().(*types.Pointer); ok {
@@ -820,7 +836,7 @@ func (c *SpecCtx) index(n *EIndex) TV {
 		if !mi.ok {
 			c.fail("map with composite key in spec")
 		}
-		k := c.e.mapKey(c.eval(n.I).V, mi.kt)
+		k := c.e.mapKeyMemo(c.keyValue(c.eval(n.I), mi.kt), mi.kt, c.keyMemo)
 		m := x.V.(Sc).T
 		in := sel(c.e.mapDom(c.heap, mi, m), k)
 		return TV{iteValue(in, c.e.mapGet(c.heap, mi, m, k), zeroValue(t.Elem())), t.Elem()}
@@ -918,8 +934,19 @@ func (c *SpecCtx) call(n *ECall) TV {
 		if !mi.ok {
 			c.fail("map with composite key in spec")
 		}
-		k := c.e.mapKey(c.eval(n.Args[1]).V, mi.kt)
+		k := c.e.mapKeyMemo(c.keyValue(c.eval(n.Args[1]), mi.kt), mi.kt, c.keyMemo)
 		return TV{Sc{sel(c.e.mapDom(c.heap, mi, a.V.(Sc).T), k)}, mathBool}
+	case "nonnilvals": // nonnilvals(m): every value stored in the map (of pointer values) is non-nil
+		a := c.eval(n.Args[0])
+		mi := c.e.mapInfoOf(a.T)
+		if !mi.ok || len(mi.vsorts) != 1 || mi.vsorts[0] != SInt {
+			c.fail("nonnilvals needs a map with pointer values")
+		}
+		m := a.V.(Sc).T
+		dom := c.e.mapDom(c.heap, mi, m)
+		vals := sel(c.heap.get(fmt.Sprintf("%s#v0", mi.fam), arrSort(SInt, arrSort(mi.keySort, SInt))), m)
+		return TV{Sc{mk(SBool, "(forall ((qk! %s)) (! (=> (select %s qk!) (not (= (select %s qk!) 0))) :pattern ((select %s qk!)) :pattern ((select %s qk!))))",
+			mi.keySort, dom.S, vals.S, dom.S, vals.S)}, mathBool}
 	case "calls": // calls("callee"): number of calls made by this function to callees whose name ends so
 		st, ok := n.Args[0].(*EStr)
 		if !ok {
